@@ -205,7 +205,9 @@ func TestC07(t *testing.T) {
 
 	// (4) wiring through a real ClusterConnection in LCM mode: DescribeCluster override and the
 	// metadata of the stream the proxy opens, both directions, with and without the bypass header
-	pairs := [][2]int32{{2, 3}, {3, 2}, {4, 6}, {1, 5}, {8, 8}, {5, 7}, {16, 12}}
+	// ... including pairs whose LCM lies far above any real shard count (4000 x 1024 -> 128000): ids in the LCM space are
+	// not real shard ids, and every one of them must still be forwarded
+	pairs := [][2]int32{{2, 3}, {3, 2}, {4, 6}, {1, 5}, {8, 8}, {5, 7}, {16, 12}, {4000, 1024}}
 	if e.Thorough() {
 		for i := 0; i < 40; i++ {
 			pairs = append(pairs, [2]int32{1 + rng.Int32N(64), 1 + rng.Int32N(64)})
@@ -392,6 +394,75 @@ func TestC07(t *testing.T) {
 					if len(attempts) == 0 {
 						viol(fmt.Sprintf("LCM stream for shard %d: the handler never tried to open the upstream stream", s), op)
 					}
+				}
+			}
+		}
+	}
+	// (6) the same handler, big LCM spaces: boundary ids of the LCM space (around every power of two, both counts, the ends)
+	// and random ones — each is forwarded to exactly one upstream stream carrying the remapped ids
+	bigPairs := [][2]int32{{4000, 1024}, {16384, 12288}, {3000, 2048}, {10000, 16384}, {16383, 16384}, {1000, 24}, {512, 768}}
+	for _, pr := range bigPairs {
+		local, remote := pr[0], pr[1]
+		L := common.LCM(local, remote)
+		for _, inbound := range []bool{true, false} {
+			count := remote
+			if inbound {
+				count = local
+			}
+			sids := []int32{1, 2, local, remote, local + 1, remote + 1, L - 1, L}
+			for p2 := int32(256); p2 > 0 && p2 <= L; p2 *= 2 {
+				sids = append(sids, p2-1, p2, p2+1)
+			}
+			nr := 12
+			if e.Thorough() {
+				nr = 200
+			}
+			for i := 0; i < nr; i++ {
+				sids = append(sids, 1+rng.Int32N(L))
+			}
+			for _, s := range sids {
+				if s < 1 || s > L {
+					continue
+				}
+				client := newMultiClient()
+				client.opened = make(chan *cliStream, 4)
+				lifetime, stop := context.WithCancel(context.Background())
+				dirs := []string{"outbound"}
+				if inbound {
+					dirs = []string{"inbound"}
+				}
+				srv := proxy.NewAdminServiceProxyServer("c07", client, client, proxy.AdminServiceOverrides{}, dirs, func(int32, int32) {},
+					config.ShardCountConfig{Mode: config.ShardCountLCM, LocalShardCount: local, RemoteShardCount: remote},
+					proxy.LCMParameters{LCM: L, TargetShardCount: count}, proxy.RoutingParameters{}, noopLoggers(), nil, lifetime)
+				ctx, cancel := context.WithCancel(metadata.NewIncomingContext(context.Background(), streamMD(7, (s-1)%(local+remote-count)+1, 9, s)))
+				ss := newSrvStream(ctx)
+				done := make(chan error, 1)
+				go func() { done <- srv.StreamWorkflowReplicationMessages(ss) }()
+				var herr error
+				select {
+				case herr = <-done:
+				case <-client.opened:
+					cancel()
+					select {
+					case <-done:
+					case <-time.After(5 * time.Second):
+					}
+				case <-time.After(5 * time.Second):
+				}
+				cancel()
+				stop()
+				client.mu.Lock()
+				attempts := append([]metadata.MD(nil), client.attempts...)
+				client.mu.Unlock()
+				want := fmt.Sprintf("md 7 %d 9 %d", s, (s-1)%count+1)
+				op := fmt.Sprintf("# biglcm local=%d remote=%d inbound=%v s=%d attempts=%d", local, remote, inbound, s, len(attempts))
+				e.Emit(op, "#")
+				e.Evals++
+				e.Count("biglcm_streams")
+				if len(attempts) != 1 {
+					viol(fmt.Sprintf("LCM stream for shard %d of %d (local=%d remote=%d inbound=%v): the handler opened %d upstream stream(s), expected exactly one (handler returned: %v)", s, L, local, remote, inbound, len(attempts), herr), op)
+				} else if got := mdString(attempts[0]); got != want {
+					viol(fmt.Sprintf("LCM stream for shard %d of %d (local=%d remote=%d inbound=%v) opened upstream with %q, expected %q", s, L, local, remote, inbound, got, want), op)
 				}
 			}
 		}
